@@ -338,6 +338,27 @@ def _min_point(rc: RuleCtx):
             b_ = ev.bool_registry.get(a_.args[1].atoms()[0].extra) if a_.args[1].atoms() else None
             if b_ is not None and b_.kind == "true":
                 desc = it_ok = True
+    def _is_sorted_desc(r_):
+        a__ = single_atom(r_) if isinstance(r_, Rat) else None
+        if a__ is not None and a__.name == "py.sorted" and a__.args and a__.args[0].equals(tsym) and tuple(a__.extra or ()) == ("reverse",) and len(a__.args) == 2:
+            b__ = ev.bool_registry.get(a__.args[1].atoms()[0].extra) if a__.args[1].atoms() else None
+            return b__ is not None and b__.kind == "true"
+        return False
+    if not (desc and it_ok) and isinstance(loop, ast.For):
+        # an index loop over the sorted thresholds: for k in range(len(S)): current = S[k]
+        from .common import bind_loop as _bl
+        try:
+            b__ = _bl(ev, fr, loop, env)
+        except Unsupported:
+            b__ = None
+        if b__ is not None and b__.lo.is_zero():
+            S_ = [v_ for v_ in env.values() if _is_sorted_desc(v_)]
+            if S_ and b__.hi.equals(ev.length_of(S_[0])):
+                benv__ = dict(env)
+                benv__.update(b__.bindings)
+                o__ = ev.eval_loop_body(fi, loop, benv__)
+                if any(isinstance(v_, Rat) and v_.equals(anf.opaque("at", S_[0], b__.idx, array=False)) for v_ in list(o__.env.values()) + list(b__.bindings.values())):
+                    desc = it_ok = True
     if desc and it_ok:
         res.ok("G5", f"{fi.qualname}:order", "thresholds are visited in descending order")
     else:
@@ -389,7 +410,9 @@ def _min_point(rc: RuleCtx):
                 amap = dict(zip(call.extra or (), call.args))
                 tv = amap.get("t")
                 t_ok = tv is not None and set(amap) == {"points", "t"} and amap["points"].equals(ev2.to_rat(pts2)) and tv.atoms() and not tv.is_array() \
-                    and all(a_.kind == "sym" for a_ in tv.atoms())
+                    and (all(a_.kind == "sym" for a_ in tv.atoms())
+                         or (single_atom(tv) is not None and single_atom(tv).name == "at" and single_atom(single_atom(tv).args[0]) is not None
+                             and single_atom(single_atom(tv).args[0]).name == "py.sorted" and all(a_.kind == "sym" for a_ in single_atom(tv).args[1].atoms())))
                 if not t_ok:
                     ok = False
                     res.violation("G5", fi.module, fi.name, fi.node, "each threshold is not tried by one grdp(points, t=current_t) run", _short(Rat.from_atom(call), 120),
